@@ -18,7 +18,7 @@ import nlgen, c19gen
 
 CHAIN_RE = re.compile(r'(_(\d+|slk|equ)_)*\Z')
 TOKSTART_RE = re.compile(r'_[^_]+_')
-N_THEOREMS = 1
+N_THEOREMS = 20
 
 
 def hx(s):
@@ -452,7 +452,8 @@ def exec_case(ck, exe, drv, st, case):
     q += ['var %d' % G.cell('dest_objs()', i) for i in range(len(objs))]
     conkeys = sorted(G.con_final)
     q += ['con %d' % G.cell(t, i) for (t, i) in conkeys]
-    leafq = ['leaf %d' % G.cell('dest_vars()', i) for i in range(len(vnames))] + ['leaf %d' % G.cell(t, i) for (t, i), o in final_cons]
+    leafq = ['dvars ' + ' '.join(str(G.cell('dest_vars()', i)) for i in range(len(vnames))),
+             'dcons ' + ' '.join(str(G.cell(t, i)) for (t, i), o in final_cons)]
     a = drv.many(q + leafq)
     got = [unhx(h) if re.fullmatch(r'-|([0-9a-f]{2})+', h) else '?' + h for h in a[:len(q)]]
     real = list(vnames) + list(objs) + [G.con_final[k].get('name', '') for k in conkeys]
@@ -464,12 +465,14 @@ def exec_case(ck, exe, drv, st, case):
         out.append(('model:derived-names-differ',
                     'name presolve model over the exported graph gives %r for cell "%s", the real run %r (%d cells differ)' % (gg, qq, rr, len(diffs)),
                     dict(replay, first=diffs[:5]), False))
-    leaves = all(x == '1' for x in a[len(q):])
+    dinfo = [dict(kv.split('=') for kv in x.split()) for x in a[len(q):]]
+    leaves = all(x.get('belowfree') == '1' and x.get('uncounted') == '1' for x in dinfo)
     sfv = drv.ask('sf ' + ' '.join(hx(n) for n in srcs_v))
     sfc = drv.ask('sf ' + ' '.join(hx(n) for n in srcs_c))
     if (sfv == '1' and sfc == '1') != (suffix_free(srcs_v) and suffix_free(srcs_c)):
         out.append(('model:suffixfree-differs', 'Lean suffixFreeB and the python reference disagree on %r / %r' % (srcs_v, srcs_c), replay, False))
-    hyps = {'wellfed': runinfo.get('wellfed') == '1', 'sib': runinfo.get('sib') == '1', 'plainsafe': runinfo.get('plainsafe') == '1',
+    hyps = {'wellfed': runinfo.get('wellfed') == '1', 'sib': runinfo.get('sib') == '1',
+            'plainsafe': runinfo.get('noclash') == '1' and runinfo.get('closed') == '1',
             'leaves': leaves, 'suffixfree': sfv == '1' and sfc == '1'}
     for k, v in hyps.items():
         st.inc('hyp:%s=%d' % (k, v))
@@ -563,28 +566,60 @@ def stage_nameprovider(ck, drv, st, rng, workdir, n):
 
 # ------------------------------------------------------------------ counterexample replay
 def stage_counterexamples(ck, exe, st, workdir):
-    """the proved negation witness (Props: C19_counterexample_adversarial) on the real driver:
-    constraints named `c` (nonlinear, gets derived children c_2_ ...) and `c_2_`"""
+    """the proved negation witnesses of Props.lean, replayed on the real driver on every run"""
+    def delivered(r):
+        return [e['name'] for e in r['log'] if e['ev'] == 'con']
+    # 1. C19_counterexample_adversarial: rows `c` (nonlinear -> derived children c_2_, c_3_ ...) and `c_3_`
     m = nlgen.Model()
     x = m.var(-5, 5, name='x'); y = m.var(-5, 5, name='y')
     m.obj('min', {x: 1}, name='total')
     m.con(None, 3, {y: 1}, ('abs', ('v', x)), name='c')
     m.con(None, 4, {x: 1, y: 1}, None, name='c_3_')
-    stub = os.path.join(workdir, 'cex1')
+    stub = os.path.join(workdir, 'cex_adversarial')
     m.write(stub)
-    r = recsolver.run(exe, stub, options=[], graph=False)
-    cons = [e['name'] for e in r['log'] if e['ev'] == 'con']
-    vs = [e for e in r['log'] if e['ev'] == 'vars']
+    cons = delivered(recsolver.run(exe, stub, options=[], graph=False))
     st.inc('cex:runs')
     dup = sorted({n for n in cons if cons.count(n) > 1})
-    ck.sample('counterexample replay: rows c, c_3_ -> delivered constraints %r' % (cons,))
+    ck.sample('counterexample replay (adversarial): rows c, c_3_ -> delivered constraints %r' % (cons,))
     if dup:
         ck.add_violation('duplicate-con-names:adversarial-sources',
-                         'rows named c and c_3_ (c is nonlinear): the derived constraint of c is also named %r' % dup[0],
+                         'rows named c and c_3_ (c is nonlinear): a constraint derived from c is also named %r' % dup[0],
                          {'stub': os.path.relpath(stub, VERIF), 'delivered': cons, 'how': 'recsolver %s -AMPL' % stub}, found_input=True)
     else:
-        ck.add_violation('counterexample-no-longer-reproduces', 'the adversarial-name witness no longer yields duplicate names: %r (Props counterexample and known finding are stale)' % (cons,),
+        ck.add_violation('counterexample-stale:adversarial', 'the adversarial-name witness no longer yields duplicate names: %r (Props counterexample / known finding are stale)' % (cons,),
                          {'delivered': cons}, found_input=False)
+    # 2. C19_counterexample_innocent_clash: one innocent row name, numeric if-then-else, default acceptance
+    m = nlgen.Model()
+    x = m.var(-5, 5, name='x'); y = m.var(-5, 5, name='y'); w = m.var(-5, 5, name='w'); z = m.var(0, 3, True, name='z')
+    m.obj('min', {x: 1}, name='total')
+    m.con(None, 5, {x: 1}, ('if', ('le', ('v', z), ('n', 1)), ('v', y), ('v', w)), name='c')
+    stub = os.path.join(workdir, 'cex_innocent')
+    m.write(stub)
+    cons = delivered(recsolver.run(exe, stub, options=[], graph=False))
+    st.inc('cex:runs')
+    dup = sorted({n for n in cons if cons.count(n) > 1})
+    ck.sample('counterexample replay (innocent): c: x + (if z <= 1 then y else w) <= 5 -> delivered constraints %r' % (cons,))
+    if dup:
+        ck.add_violation('duplicate-con-names:innocent-sources:plain-child-converted-further',
+                         'single row `c: x + (if z<=1 then y else w) <= 5`, default options: two delivered constraints are named %r' % dup[0],
+                         {'stub': os.path.relpath(stub, VERIF), 'delivered': cons, 'how': 'recsolver %s -AMPL' % stub}, found_input=True)
+    else:
+        ck.add_violation('counterexample-stale:innocent-clash', 'the if-then-else witness no longer yields duplicate names: %r' % (cons,), {'delivered': cons}, found_input=False)
+    # 3. C19_counterexample_empty: corpus case (found by this check) where a CopyLink entry extended in place runs
+    #    before its source cell is named
+    cdir = os.path.join(VERIF, 'corpus', 'C19')
+    meta = json.load(open(os.path.join(cdir, 'empty-name.json')))
+    stub = os.path.join(workdir, 'cex_empty')
+    for ext in ('.nl', '.col', '.row'):
+        shutil.copy(os.path.join(cdir, 'empty-name' + ext), stub + ext)
+    cons = delivered(recsolver.run(exe, stub, options=meta['options'], accept=meta['accept'], graph=False))
+    st.inc('cex:runs')
+    ck.sample('counterexample replay (empty): corpus/C19/empty-name -> delivered constraints %r' % (cons,))
+    if '' in cons:
+        ck.add_violation('empty-name:con:unnamed-link-source', 'corpus/C19/empty-name.nl (+.col/.row, %s): a constraint is delivered with an empty name' % ' '.join(meta['options']),
+                         {'stub': 'corpus/C19/empty-name', 'options': meta['options'], 'accept': meta['accept'], 'delivered': cons}, found_input=True)
+    else:
+        ck.add_violation('counterexample-stale:empty-name', 'the corpus case no longer yields an empty name: %r' % (cons,), {'delivered': cons}, found_input=False)
 
 
 # ------------------------------------------------------------------ main
